@@ -75,9 +75,9 @@ def config_reentry(quick):
     given 1100 anonymous children in one go (all of them visited by Each), 70 000 loggers derived elsewhere."""
     opt = lambda k, a, b=0: dict(k=k, a=a, b=b)
     return dict(
-        max_loggers=2 if quick else 3, init_level=5, names=["a"], bool_lists=BOOL_LISTS, layouts=["", "15:04:05"], opt_lists=[[], [opt("JSONMode", 1)]],
+        max_loggers=2, init_level=5, names=["a"], bool_lists=BOOL_LISTS, layouts=["", "15:04:05"], opt_lists=[[], [opt("JSONMode", 1)]],
         setter_args={"JSONMode": [(1, 0)], "ColorMode": [(3, 0)], "TimeFormat": [(2, 0)]} if quick else
-        {"JSONMode": [(1, 0)], "TimeFormat": [(2, 0)], "UTCMode": [(1, 0)]},
+        {"JSONMode": [(1, 0)], "ColorMode": [(3, 0)], "TimeFormat": [(2, 0)], "UTCMode": [(1, 0)]},
         acts=["Set", "New", "LogNest", "EachNew", "BulkKids"], probe_sevs=[4], max_list=1, max_bulk=1,
     )
 
